@@ -11,7 +11,15 @@ package queue
 //   correspondence: per message id, the whole history as model choices (see lean/Driver/C02.lean)
 //                   ⇒ what the last run did to that id (calls, attempts, deliveries, reports) and
 //                   the files it left;
-//   monitor:        the property itself on the real events (independent of the model).
+//   monitor:        the property itself on the real events (independent of the model); in
+//                   particular, for EVERY recovery run (explorer and hand-made directories) and every
+//                   complete stored message it starts from: each pending recipient is attempted and
+//                   is then delivered, named in a failure report, or still pending in a loadable
+//                   .meta (c02Account).
+//
+// Envelopes are spelled in several legitimate ways (c02Envs: plain, null reverse-path,
+// internationalised + SMTPUTF8, quoted local parts, mixed); recovery runs are scripted with
+// temporary and permanent failures from their first attempt on.
 
 import (
 	"bufio"
@@ -302,7 +310,9 @@ type c02BounceDelivery struct {
 func (b *c02Bounce) Start(ctx context.Context, msgMeta *module.MsgMetadata, mailFrom string) (module.Delivery, error) {
 	return &c02BounceDelivery{b: b, rs: map[string][]string{}}, nil
 }
-func (d *c02BounceDelivery) AddRcpt(ctx context.Context, to string, _ smtp.RcptOptions) error { return nil }
+func (d *c02BounceDelivery) AddRcpt(ctx context.Context, to string, _ smtp.RcptOptions) error {
+	return nil
+}
 func (d *c02BounceDelivery) Body(ctx context.Context, header textproto.Header, body buffer.Buffer) error {
 	r, err := body.Open()
 	if err != nil {
@@ -890,9 +900,9 @@ func c02HeaderParses(data []byte) bool {
 // ---------------------------------------------------------------- exploration of the crash points
 
 type c02Hist struct {
-	toks []string // model choices so far (ends with the crash token and "R")
-	pre  []string // real events before the crash(es)
-	hp   int      // -1 unknown, else result of ReadHeader on the header found after the first crash
+	toks []string        // model choices so far (ends with the crash token and "R")
+	pre  []string        // real events before the crash(es)
+	hp   int             // -1 unknown, else result of ReadHeader on the header found after the first crash
 	tmp  map[string]int  // recipient → temporary failures the target returned before the crash(es)
 	prm  map[string]bool // recipient → the target returned a permanent failure before the crash(es)
 }
@@ -935,8 +945,10 @@ func c02Fails(lg []*vos.Entry, pos int, tmp map[string]int, prm map[string]bool)
 // or pending in a loadable .meta next to header and body when the run is over.  For the null
 // reverse-path no report can be made: there a recipient may instead be given up on once the target
 // returned a permanent failure or maxTries temporary ones (tmp/prm: failures before this run).
+// Recipients in `done` had their outcome before the stop already (the crash came before the queue
+// could record it): the property asks nothing more for them.
 // Returns the first recipient that is unaccounted for.
-func c02Account(id string, stored []string, null bool, hdrParses bool, maxTries int, tmp map[string]int, prm map[string]bool,
+func c02Account(id string, stored []string, done map[string]bool, null bool, hdrParses bool, maxTries int, tmp map[string]int, prm map[string]bool,
 	lg []*vos.Entry, final map[string]vos.FState) (lost string, why string) {
 	tmpAll := map[string]int{}
 	prmAll := map[string]bool{}
@@ -972,6 +984,7 @@ func c02Account(id string, stored []string, null bool, hdrParses bool, maxTries 
 	for _, r := range stored {
 		gaveUp := null && (prmAll[r] || tmpAll[r] >= maxTries)
 		switch {
+		case done[r]:
 		case !att[r] && hdrParses:
 			return r, "is not attempted by the recovery run"
 		case dlv[r] || rpt[r] || pend[r] || gaveUp:
@@ -1350,7 +1363,13 @@ func (x *c02Explorer) judge(id string, h c02Hist, crashFiles map[string][]byte, 
 	if storedOK && !has(post, "PANIC") {
 		x.out.Stat("monitor.stored-message-accounted-for.checked")
 		hdrParses := c02HeaderParses(crashFiles["H"])
-		lost, why := c02Account(id, storedTo, null, hdrParses, x.maxTries, h.tmp, h.prm, rec.logs[id], rec.final[id])
+		donePre := map[string]bool{}
+		for _, r := range storedTo {
+			if termPre[r] || (null && (h.prm[r] || h.tmp[r] >= x.maxTries)) {
+				donePre[r] = true
+			}
+		}
+		lost, why := c02Account(id, storedTo, donePre, null, hdrParses, x.maxTries, h.tmp, h.prm, rec.logs[id], rec.final[id])
 		if lost != "" {
 			sig := "C02/stored-lost"
 			what := "a stored message whose transaction was still open at the stop"
@@ -1809,7 +1828,7 @@ func c02RunSyn(out *vh.Out, op string) {
 	_, hasBody := files[id+".body"]
 	if storedOK && hasHdr && hasBody && extDel == "" {
 		out.Stat("syn.monitor.stored-message-accounted-for.checked")
-		lost, why := c02Account(id, storedTo, c02EnvNull(env), c02HeaderParses(hdrData), maxTries, synTries, nil, lg, rec.final[id])
+		lost, why := c02Account(id, storedTo, nil, c02EnvNull(env), c02HeaderParses(hdrData), maxTries, synTries, nil, lg, rec.final[id])
 		if lost != "" {
 			quarantined := ""
 			if _, q := rec.final[id]["X"]; q && c02DidOp(lg, "mvMX") {
